@@ -749,8 +749,11 @@ class Geometry(SupportsCoords[float]):
             # TODO: derive precision from resolution by converting to degrees
             precision = 0.1
             chopped = chop_along_antimeridian(geom, precision)
-            chopped_lonlat = maybe_fix(chopped._to_crs(crs))
-            return clip_lon180(chopped_lonlat, eps)
+            # move vertices on the cut to the right side of the date line first: the part west of
+            # it comes back with +180 on its cut edge, is invalid like that and "fixing" it
+            # (buffer(0)) merges both parts into one polygon wrapping the globe
+            chopped_lonlat = clip_lon180(chopped._to_crs(crs), eps)
+            return maybe_fix(chopped_lonlat)
 
         return maybe_fix(geom._to_crs(crs))
 
